@@ -221,6 +221,19 @@ fn signed(t: &mut Tape, obs: &mut Obs) -> R {
     obs.nontrivial(fnv64(&buf));
     obs.class(if with_alg { "with-algorithm" } else { "legacy" });
     obs.sample(json!({"alg": m.alg, "data_len": m.data.len(), "hex": hex_short(&buf)}));
+    // a clone of the decoded value (and of its algorithm pair) is the value: field by field and in its Debug text
+    let cl = guard("DigitallySigned::clone", || {
+        let r = if with_alg { parse_digitally_signed(&buf) } else { parse_digitally_signed_old(&buf) };
+        r.ok().map(|(_, d)| {
+            let c = d.clone();
+            let mut x = d.clone();
+            x.clone_from(&c);
+            (conv::signed(&c) == conv::signed(&d) && conv::signed(&x) == conv::signed(&d) && (d.data.len() > 256 || format!("{:?}", c) == format!("{:?}", d)) && d.alg.clone().map(|a| (a.hash.0, a.sign.0)) == d.alg.as_ref().map(|a| (a.hash.0, a.sign.0)), if d.data.len() > 256 { format!("{:?} vs {:?}", conv::signed(&c).alg, conv::signed(&d).alg) } else { format!("{:?} vs {:?}", c, d) })
+        })
+    })?;
+    if let Some((ok, txt)) = cl {
+        ensure!(ok, "C13:signed:clone-differs", "the clone of a decoded DigitallySigned differs from it: {}", trunc(&txt));
+    }
     if with_alg {
         expect_exact("parse_digitally_signed", run_p("parse_digitally_signed", &buf, parse_digitally_signed, conv::signed)?, &m, enc.len(), tl.len(), &buf)?;
         prefixes_never_ok("parse_digitally_signed", &enc, t, parse_digitally_signed)
@@ -310,6 +323,45 @@ fn content_and_signature(t: &mut Tape, obs: &mut Obs) -> R {
         (Err(_), None) => {}
         (Ok((_, _, s)), None) => return fail("C13:content-and-signature:accepted", format!("ext={}: returned {:?} although the bytes do not hold a complete signature in that form", ext, s)),
         (Err(e), Some(_)) => return fail("C13:content-and-signature:rejected", format!("ext={}: rejected with {} although content and signature are complete: {}", ext, e, hex_short(&buf))),
+    }
+    // the content parser is the caller's: "the content parser's value followed by a signature" means the signature is read from what
+    // the content parser leaves, whatever that parser is.
+    // (a) a content parser whose encoding is empty (a body that is only a DigitallySigned, such as CertificateVerify)
+    let sigpart = &buf[content_len..];
+    let got = guard("parse_content_and_signature (empty content)", || match parse_content_and_signature(sigpart, |i: &[u8]| -> IResult<&[u8], u8> { Ok((i, 7u8)) }, ext) {
+        Ok((rem, (c, sg))) => Ok((rem.len(), c, conv::signed(&sg))),
+        Err(e) => Err(format!("{:?}", e.map(|x| x.code))),
+    })?;
+    match (got, ref_signed(sigpart, ext)) {
+        (Ok((rl, c, sg)), Some((ws, used))) => ensure!(c == 7 && sg == ws && rl == sigpart.len() - used, "C13:content-and-signature:empty-content", "with a content parser that consumes nothing: content {}, signature {}, remainder {}; expected 7, {}, {}", c, trunc(&format!("{:?}", sg)), rl, trunc(&format!("{:?}", ws)), sigpart.len() - used),
+        (Err(_), None) => {}
+        (Ok((_, _, sg)), None) => return fail("C13:content-and-signature:empty-content:accepted", format!("ext={}: returned {:?} although the bytes do not hold a complete signature in that form", ext, sg)),
+        (Err(e), Some(_)) => return fail("C13:content-and-signature:empty-content:rejected", format!("ext={}: with a content parser that consumes nothing, a complete signature was rejected with {}: {}", ext, e, hex_short(sigpart))),
+    }
+    // (b) a content parser that confines itself to the first k bytes of what it is given (the caller knows the body length, another
+    // message follows in the buffer): the signature is read inside those k bytes and the remainder is what is left of them
+    if let Some((_, used)) = ref_signed(sigpart, ext) {
+        let k = (content_len + used + if t.bool() { 0 } else { t.below(tl.len() + 1) }).min(buf.len());
+        let got: Result<(usize, String, MSigned), String> = guard("parse_content_and_signature (confined content parser)", || {
+            macro_rules! go {
+                ($p:expr, $c:expr) => {
+                    match parse_content_and_signature(&buf, |i: &[u8]| $p(&i[..k]), ext) {
+                        Ok((rem, (c, sg))) => Ok((rem.len(), format!("{:?}", $c(&c)), conv::signed(&sg))),
+                        Err(e) => Err(format!("{:?}", e.map(|x| x.code))),
+                    }
+                };
+            }
+            match which {
+                0 => go!(parse_dh_params, conv::dh),
+                1 => go!(parse_ecdh_params, conv::ecdh),
+                _ => go!(parse_ec_parameters, conv::ec_params),
+            }
+        })?;
+        let (ws, wused) = ref_signed(&buf[content_len..k], ext).unwrap();
+        match got {
+            Ok((rl, cfp, sg)) => ensure!(cfp == content_fp && sg == ws && rl == k - content_len - wused, "C13:content-and-signature:confined-content", "content parser confined to the first {} of {} bytes: signature {} remainder {}, expected {} and {}", k, buf.len(), trunc(&format!("{:?}", sg)), rl, trunc(&format!("{:?}", ws)), k - content_len - wused),
+            Err(e) => return fail("C13:content-and-signature:confined-content:rejected", format!("content parser confined to the first {} of {} bytes: rejected with {}", k, buf.len(), e)),
+        }
     }
     Ok(())
 }
